@@ -243,11 +243,11 @@ func TestCluster(t *testing.T) {
 		t.Fatal(err)
 	}
 	defer w.Close()
-	retry := time.Duration(vh.EnvInt("VERIF_CLUSTER_RETRY_MS", 1000)) * time.Millisecond
+	retry := time.Duration(vh.EnvInt("VERIF_CLUSTER_RETRY_MS", 2000)) * time.Millisecond
 	defaults := vh.Env("VERIF_CLUSTER_DEFAULTS", "") == "1"
 	cert := loopbackCert()
 	var wmu sync.Mutex
-	sem := make(chan struct{}, vh.EnvInt("VERIF_CLUSTER_PAR", 24))
+	sem := make(chan struct{}, vh.EnvInt("VERIF_CLUSTER_PAR", 32))
 	var wg sync.WaitGroup
 	for i, p := range plans {
 		wg.Add(1)
